@@ -352,7 +352,16 @@ do_hash(char * l)
 	vt_begin("hash"); vt_str("alg", alg); vt_str("msg", strcmp(hex, "-") ? hex : "");
 	fprintf(vt_out, ",\"cuts\":["); for (i = 0; i < ncuts; i++) fprintf(vt_out, "%s%ld", i ? "," : "", cuts[i]); fprintf(vt_out, "]");
 	fprintf(vt_out, ",\"counts\":["); for (i = 0; i < ncuts; i++) fprintf(vt_out, "%s%ld", i ? "," : "", counts[i]); fprintf(vt_out, "]");
-	vt_hex("digest", dig, dl); vt_hex("oneshot", one, dl); vt_bool("zero", zero); vt_int("align", align); vt_end();
+	vt_hex("digest", dig, dl); vt_hex("oneshot", one, dl); vt_bool("zero", zero); vt_int("align", align);
+	{
+		/* the one-shot call with the digest written over the beginning of the message */
+		uint8_t * tm = __real_malloc((len > dl ? len : dl) + 1);
+		memcpy(tm, buf + align, len);
+		if (dl == 32) SHA256_Buf(tm, len, tm); else if (dl == 20) SHA1_Buf(tm, len, tm); else MD5_Buf(tm, len, tm);
+		vt_hex("overmsg", tm, dl);
+		__real_free(tm);
+	}
+	vt_end();
 	free(buf);
 }
 
@@ -474,6 +483,7 @@ do_crc(char * l)
 	free(buf);
 }
 
+static uint8_t inpl_out[16];
 static void
 do_aes(char * l)
 {
@@ -490,8 +500,9 @@ do_aes(char * l)
 	k = crypto_aes_key_expand(key, klen);
 	if (k == NULL) return;
 	crypto_aes_encrypt_block(blk, o, k);
+	{ uint8_t ip[16]; memcpy(ip, blk, 16); crypto_aes_encrypt_block(ip, ip, k); memcpy(inpl_out, ip, 16); }	/* in place */
 	crypto_aes_key_free(k);
-	vt_begin("aes"); vt_str("key", khex); vt_str("in", bhex); vt_hex("out", o, 16); vt_int("tainted", tainted_frees);
+	vt_begin("aes"); vt_str("key", khex); vt_str("in", bhex); vt_hex("out", o, 16); vt_hex("inplace", inpl_out, 16); vt_int("tainted", tainted_frees);
 	if (tainted_frees) vt_str("what", tainted_what);
 	vt_end();
 	nsecrets = 0;
